@@ -28,8 +28,8 @@ decimal t and no kind name. Non-trivial = every injection and every rendering; d
 
 fn parts(t: Tier) -> Vec<Part> {
     let a = match t {
-        Tier::Quick => 300_000,
-        Tier::Thorough => 5_000_000,
+        Tier::Quick => 900_000,
+        Tier::Thorough => 10_000_000,
     };
     vec![tape("injection", a, 1200), enumerate("rendering", 65536)]
 }
@@ -157,8 +157,13 @@ fn check_rendering(x: u16, cx: &mut Cx) -> Res {
 }
 
 fn rec(w: &mut Vec<u8>, vendor: u16, attr: u16, payload: &[u8]) {
+    rec_bits(w, 1, vendor, attr, payload)
+}
+
+/// `bits`: the low six bits of the first header octet (M = 0x01, H = 0x02, reserved = 0x3c)
+fn rec_bits(w: &mut Vec<u8>, bits: u8, vendor: u16, attr: u16, payload: &[u8]) {
     let len = 6 + payload.len();
-    w.extend_from_slice(&[(((len >> 8) as u8) << 6) | 1, len as u8]);
+    w.extend_from_slice(&[(((len >> 8) as u8) << 6) | (bits & 0x3f), len as u8]);
     w.extend_from_slice(&vendor.to_be_bytes());
     w.extend_from_slice(&attr.to_be_bytes());
     w.extend_from_slice(payload);
@@ -215,7 +220,8 @@ fn check_injection(t: &mut Tape, cx: &mut Cx) -> Res {
             let x = if t.chance(40) { [20u16, 40, 41, 255, 256, 65535][t.below(6)] } else { 40 + t.below(65496) as u16 };
             let n = t.below(16);
             let p = t.blob(n);
-            rec(&mut bad, 0, x, &p);
+            let bits = if t.chance(50) { 1 } else { t.byte() & 0x3d };
+            rec_bits(&mut bad, bits, 0, x, &p);
             DecodeError::UnknownAvp(x)
         }
         3 => {
@@ -235,7 +241,17 @@ fn check_injection(t: &mut Tape, cx: &mut Cx) -> Res {
             let attr = ASSIGNED[t.below(39)];
             let mut p = Vec::new();
             encode_payload(&gen_body_max(t, attr, 40), &mut p);
-            rec(&mut bad, v, attr, &p);
+            // a vendor-specific AVP is refused whatever its other header bits say (M, H, reserved)
+            let bits = match t.below(4) {
+                0 => 0x01,
+                1 => 0x03,
+                2 => 0x02,
+                _ => t.byte() & 0x3f,
+            };
+            if bits & 0x02 != 0 {
+                cx.class("fault: vendor id on an AVP with the H bit");
+            }
+            rec_bits(&mut bad, bits, v, attr, &p);
             DecodeError::UnsupportedVendorId(v)
         }
         5 => {
@@ -256,7 +272,8 @@ fn check_injection(t: &mut Tape, cx: &mut Cx) -> Res {
             let min = min_len(fmt_of(attr).unwrap());
             let n = t.below(min);
             let p = t.blob(n);
-            rec(&mut bad, 0, attr, &p);
+            let bits = if t.chance(50) { 1 } else { t.byte() & 0x3d };
+            rec_bits(&mut bad, bits, 0, attr, &p);
             DecodeError::IncompleteAVP(attr)
         }
         _ => {
